@@ -506,6 +506,8 @@ class Interp:
                 return IntV(64, int(g.split('_')[0]))
             base = _strip_generics(p)
             segs = base.split('::')
+            if segs[-1] in ('RangeFull', 'PhantomData'):
+                return Agg(segs[-1], [])
             if len(segs) >= 2 and segs[-2] in self.enums and segs[-1] in self.enums[segs[-2]]:
                 return Agg(segs[-2], [], segs[-1])
             if base in self.consts:
@@ -1041,10 +1043,11 @@ class Interp:
     def call_closure(self, clo, args):
         """call a closure value (Agg kind 'closure@span', or a reference to one, or an FnRef)"""
         c = clo
-        if isinstance(c, FnRef):
-            return self.invoke(c.name, list(args), self.curfn[-1])
-        cv = self.deref(c)
+        cv = c if isinstance(c, FnRef) else self.deref(c)
         if isinstance(cv, FnRef):
+            last = _strip_generics(cv.name).split('::')[-1]
+            if last[:1].isupper() and not self.by_last.get(last):
+                return self.adt(cv.name, list(args))     # tuple-struct / variant constructor as a function
             return self.invoke(cv.name, list(args), self.curfn[-1])
         if not (isinstance(cv, Agg) and cv.kind.startswith('closure@')):
             raise Unsupported('call of non-closure %r' % (cv,))
